@@ -774,6 +774,9 @@ PROPS["C15"] = dict(
           "the full 64-bit key and the entry unchanged", functions=["TranspositionTableAccess::insert"], timeout=1800),
         K("c15r", "c15_access_find_routes_by_key", desc="TranspositionTableAccess::find: asks the same sub-table (hash mod n) for exactly the full key and "
           "returns a copy of its answer; nothing is written", functions=["TranspositionTableAccess::find"], timeout=1800),
+        K("c15r", "c15_access_constructor_then_insert_and_find", kind="bounded", bound="<= 4 sub-tables", tier="experimental", desc="with_tables (verbatim) followed by insert and find: "
+          "the constructed value routes by the full key to sub-table hash mod n", functions=["TranspositionTableAccess::with_tables", "TranspositionTableAccess::insert",
+          "TranspositionTableAccess::find"], timeout=2400, heavy=True),
         K("c15r", "c15_access_counts_are_sums", kind="bounded", bound="<= 8 sub-tables", desc="entries()/max_entries() are the sums of the sub-tables' answers, each "
           "sub-table counted once", functions=["TranspositionTableAccess::entries", "TranspositionTableAccess::max_entries"], timeout=1800),
         V("c15_table_find", ["TranspositionTable::find"], "Verus, Vec of any length: find(h) == view(h), reads only bucket h % len"),
